@@ -438,7 +438,17 @@ void uop(string *a) {
     {
       mixed e, r;
       rec("UNEW ucall " + me() + " " + a[1] + " -");
-      e = catch(r = call_other(a[1], "query_nothing"));
+      // every efun that accepts a file name in place of an object loads it on demand
+      switch (sizeof(a) > 2 ? a[2] : "co") {
+      case "aco": e = catch(r = call_other(({ a[1] }), "query_nothing")); break;
+      case "move": e = catch(move_object(a[1])); break;
+      case "tellroom": e = catch(tell_room(a[1], "")); break;
+      case "filter": e = catch(r = filter_array(({ 1 }), "query_nothing", a[1])); break;
+      case "mapstr": e = catch(r = map("x", "query_nothing", a[1])); break;
+      case "message": e = catch(message("c20", "", a[1])); break;
+      case "find1": e = catch(r = find_object(a[1], 1)); break;
+      default: e = catch(r = call_other(a[1], "query_nothing"));
+      }
       rec("UNEWDONE - ok=" + (find_object(a[1]) ? 1 : 0) + " err=" + (e ? replace_string(e, "\n", "") : "0"));
     }
     break;
